@@ -52,6 +52,7 @@ def run(ctx):
     from . import listnodes
     ctx.guard(listnodes.check, ctx, 'C07-NONE')
     ctx.guard(reclass, ctx, g)
+    ctx.guard(field_kinds, ctx, g)
     L = g.lalr()
     total = sum(len(r.instances) for r in ctx.rules)
     bad = sum(len(r.violations) for r in ctx.rules)
@@ -388,6 +389,50 @@ def reclass(ctx, g):
     for c, kws in sorted(by_class.items()):
         r.check(len(kws) == 1, '%s is built for %s only' % (c, '/'.join(sorted(kws))), g.productions[0].fn, construct='bridgepoint.oal:OALParser',
                 key='injective ' + c, msg='%s is built for the keywords %s: two different statements parse to the same tree' % (c, sorted(kws)))
+
+
+def field_kinds(ctx, g):
+    '''sibling agreement of the constructor fields: a field of a node class that one production fills with free text or a sub-tree
+    (identifier, expression, event_meaning ...) is not filled with a fixed token (an operator / punctuation / keyword lexeme) by
+    another production, and vice versa -- a shifted index (p[2] for p[3]) makes the field hold the neighbouring `*` or `(`'''
+    import re as _re
+    from .c08 import ctor_fields
+    r = ctx.rule('C07-FIELDS', 'every production fills a node field with the same kind of symbol (text / sub-tree vs fixed token)', floor=100,
+                 oracle='sibling productions constructing the same node class')
+    fixed = set(g.keywords)
+    for t in g.token_rules:
+        if _re.fullmatch(r'(\\.|[^\\\[\](){}|*+?.^$])+', t.regex):
+            fixed.add(t.name)
+    fields = {}
+    for p in g.productions:
+        for cls, field, pos in ctor_fields(p):
+            if pos is None or pos - 1 >= len(p.syms):
+                continue
+            sym = p.syms[pos - 1]
+            terms = {sym} if g.is_terminal(sym) else g.terminals_only(sym)
+            kind = 'fixed' if terms and terms <= fixed else 'open'
+            fields.setdefault((cls, field), []).append((kind, sym, p))
+    # fields that legitimately take both (confirmed by reading): operators spelled as words or as symbols; `self` as a variable access
+    MIXED = {('BinaryOperationNode', 'operator'): 'and / or are keywords, the other operators symbols: all are operator lexemes',
+             ('CreateInstanceEventNode', 'to_variable_access'): 'the receiver is a variable access or the keyword self (a SelfAccessNode)',
+             ('GenerateInstanceEventNode', 'variable_access'): 'the receiver is a variable access or the keyword self (a SelfAccessNode)'}
+    for (cls, field), binds in sorted(fields.items()):
+        kinds = {b[0] for b in binds}
+        if (cls, field) in MIXED:
+            r.ok('%s.%s takes both kinds: %s' % (cls, field, MIXED[(cls, field)]), binds[0][2].fn, construct='%s.%s' % (cls, field))
+            continue
+        if len(kinds) == 1:
+            r.ok('%s.%s is always filled with %s symbols (%s)' % (cls, field, kinds.copy().pop(), ', '.join(sorted({b[1] for b in binds}))[:60]),
+                 binds[0][2].fn, construct='%s.%s' % (cls, field))
+            continue
+        major = 'open' if sum(1 for b in binds if b[0] == 'open') >= sum(1 for b in binds if b[0] == 'fixed') else 'fixed'
+        for kind, sym, p in binds:
+            if kind != major:
+                others = sorted({b[1] for b in binds if b[0] == major})
+                r.violation('%s (`%s : %s`) fills %s.%s with the %s `%s`; the sibling productions fill it with %s: an index slipped to the '
+                            'neighbouring symbol' % (p.fn.name, p.head, ' '.join(p.syms), cls, field,
+                                                     'fixed token' if kind == 'fixed' else 'text / sub-tree', sym, ', '.join(others)),
+                            p.fn, construct='bridgepoint.oal:OALParser.' + p.fn.name, key='field-kind %s.%s' % (cls, field))
 
 
 def node_ctors(ctx, g):
